@@ -561,4 +561,105 @@ theorem lookup_hit {V : Type} (H : HK → Int) : ∀ (cache : List (Restr × V))
         simp [he, hh] at hc
       · exact lookup_hit H rest k k' v h he hh
 
+/-! ## instance caches: a rebuilt description matches like the description -/
+
+theorem pick_spec {σ : Type} (step : σ → Restr → Option Restr × σ) (hstep : HitsEqual step) (env : Env) (s : σ)
+    (fresh d : Restr) (hw : wf fresh = true) (hm : ∀ x, mtch env fresh x = mtch env d x) :
+    wf (pick step s fresh).1 = true ∧ ∀ x, mtch env (pick step s fresh).1 x = mtch env d x := by
+  simp only [pick]
+  cases hh : (step s fresh).1 with
+  | none => exact ⟨hw, hm⟩
+  | some v =>
+    obtain ⟨hv, he⟩ := hstep s fresh v hh
+    exact ⟨hv, fun x => (eqv_match env v fresh hv hw he x).trans (hm x)⟩
+
+mutual
+theorem cachedBuild_spec {σ : Type} (step : σ → Restr → Option Restr × σ) (hstep : HitsEqual step) (env : Env) :
+    ∀ (d : Restr) (s : σ), wf d = true →
+      wf (cachedBuild step s d).1 = true ∧ ∀ x, mtch env (cachedBuild step s d).1 x = mtch env d x
+  | .flatten d c n, s, h => by
+    simp only [wf] at h
+    have ih := cachedBuild_spec step hstep env c s h
+    simp only [cachedBuild]
+    exact pick_spec step hstep env _ _ _ (by simpa only [wf] using ih.1) (fun x => by simp only [mtch, ih.2])
+  | .strConv c, s, h => by
+    simp only [wf] at h
+    have ih := cachedBuild_spec step hstep env c s h
+    simp only [cachedBuild]
+    exact ⟨by simpa only [wf] using ih.1, fun x => by simp only [mtch, ih.2]⟩
+  | .pkgRestr k m ats n c, s, h => by
+    simp only [wf] at h
+    have ih := cachedBuild_spec step hstep env c s h
+    simp only [cachedBuild]
+    exact pick_spec step hstep env _ _ _ (by simpa only [wf] using ih.1) (fun x => by simp only [mtch, ih.2])
+  | .conditional ats n c p, s, h => by
+    simp only [wf, Bool.and_eq_true] at h
+    have ih := cachedBuild_spec step hstep env c s h.1
+    have ihp := cachedBuildL_spec step hstep env p (cachedBuild step s c).2 h.2
+    simp only [cachedBuild]
+    exact pick_spec step hstep env _ _ _ (by simp only [wf, ih.1, ihp.1, Bool.and_self])
+      (fun x => by simp only [mtch, ih.2])
+  | .bool k t n cs, s, h => by
+    simp only [wf] at h
+    have ih := cachedBuildL_spec step hstep env cs s h
+    simp only [cachedBuild]
+    exact pick_spec step hstep env _ _ _ (by simpa only [wf] using ih.1)
+      (fun x => by simp only [mtch, (ih.2 x).1, (ih.2 x).2.1, (ih.2 x).2.2.1, (ih.2 x).2.2.2])
+  | .depset cs, s, h => by
+    simp only [wf] at h
+    have ih := cachedBuildL_spec step hstep env cs s h
+    simp only [cachedBuild]
+    exact ⟨by simpa only [wf] using ih.1, fun x => by simp only [mtch, (ih.2 x).1]⟩
+  | .strExact e c n hh, s, h => by
+    simp only [cachedBuild]; exact pick_spec step hstep env _ _ _ h (fun _ => rfl)
+  | .strGlob g p n i hh, s, h => by
+    simp only [cachedBuild]; exact pick_spec step hstep env _ _ _ h (fun _ => rfl)
+  | .strRegex r n i m hh, s, h => by
+    simp only [cachedBuild]; exact pick_spec step hstep env _ _ _ h (fun _ => rfl)
+  | .contain v a n, s, h => by
+    simp only [cachedBuild]; exact pick_spec step hstep env _ _ _ h (fun _ => rfl)
+  | .useDefault m v n, s, h => by
+    simp only [cachedBuild]; exact ⟨h, fun _ => trivial⟩
+  | .func f n, s, h => by
+    simp only [cachedBuild]; exact pick_spec step hstep env _ _ _ h (fun _ => rfl)
+  | .version vals d n ver rev, s, h => by
+    simp only [cachedBuild]; exact pick_spec step hstep env _ _ _ h (fun _ => rfl)
+  | .verGlob ver rev, s, h => by
+    simp only [cachedBuild]; exact pick_spec step hstep env _ _ _ h (fun _ => rfl)
+  | .obj i, s, h => by
+    simp only [cachedBuild]; exact pick_spec step hstep env _ _ _ h (fun _ => rfl)
+  | .atom a, s, h => by
+    simp only [cachedBuild]; exact pick_spec step hstep env _ _ _ h (fun _ => rfl)
+theorem cachedBuildL_spec {σ : Type} (step : σ → Restr → Option Restr × σ) (hstep : HitsEqual step) (env : Env) :
+    ∀ (cs : List Restr) (s : σ), wfL cs = true →
+      wfL (cachedBuildL step s cs).1 = true ∧
+      ∀ x, allM env (cachedBuildL step s cs).1 x = allM env cs x ∧ anyM env (cachedBuildL step s cs).1 x = anyM env cs x ∧
+        countM env (cachedBuildL step s cs).1 x = countM env cs x ∧ (cachedBuildL step s cs).1.isEmpty = cs.isEmpty
+  | [], s, _ => by simp [cachedBuildL, wfL]
+  | c :: cs, s, h => by
+    simp only [wfL, Bool.and_eq_true] at h
+    have ih := cachedBuild_spec step hstep env c s h.1
+    have ihl := cachedBuildL_spec step hstep env cs (cachedBuild step s c).2 h.2
+    simp only [cachedBuildL, wfL, ih.1, ihl.1, Bool.and_self, true_and]
+    intro x
+    simp only [allM, anyM, countM, ih.2, (ihl.2 x).1, (ihl.2 x).2.1, (ihl.2 x).2.2.1, List.isEmpty_cons, and_self]
+end
+
+/-- the dict lookup among the alive instances hands out only equal ones -/
+theorem aliveStep_hitsEqual (H : HK → Int) : HitsEqual (aliveStep H) := by
+  intro alive k v h
+  simp only [aliveStep] at h
+  split at h
+  · rename_i v' hl
+    simp only [Option.some.injEq] at h
+    subst h
+    obtain ⟨k', hm, he, _⟩ := lookup_some H _ k v' hl
+    obtain ⟨r, hr, hrk⟩ := List.mem_map.mp hm
+    simp only [Prod.mk.injEq] at hrk
+    obtain ⟨h1, h2⟩ := hrk
+    subst h1
+    subst h2
+    exact ⟨alive.property _ hr, he⟩
+  · cases h
+
 end Pkgcore.C07
